@@ -181,12 +181,39 @@ func ruleC09g(c *Ctx) []*report.Result {
 				if isLenOfBuf(v, recv) && v.(*ssa.Call).Block() == fn.Blocks[0] {
 					okRet = true
 				}
-				if ex, isEx := v.(*ssa.Extract); isEx && ex.Index == 0 {
-					if call, ok := ex.Tuple.(*ssa.Call); ok {
-						if f := call.Common().StaticCallee(); f != nil && len(gp[f]) > 0 {
-							okRet = true
-						}
+				// the index another growth helper returned for this function's
+				// own count (directly, as first result, or as a merge of such)
+				var fromHelper func(x ssa.Value, depth int) bool
+				fromHelper = func(x ssa.Value, depth int) bool {
+					if depth > 4 {
+						return false
 					}
+					switch y := x.(type) {
+					case *ssa.Extract:
+						return y.Index == 0 && fromHelper(y.Tuple, depth+1)
+					case *ssa.Call:
+						f := y.Common().StaticCallee()
+						if f == nil || len(gp[f]) == 0 || f.Signature.Results().Len() == 0 {
+							return false
+						}
+						for _, gi := range gp[f] {
+							if p, ok := y.Common().Args[gi].(*ssa.Parameter); !ok || !containsInt(gp[fn], paramIndex(fn, p)) {
+								return false
+							}
+						}
+						return true
+					case *ssa.Phi:
+						for _, e := range y.Edges {
+							if !fromHelper(e, depth+1) {
+								return false
+							}
+						}
+						return len(y.Edges) > 0
+					}
+					return false
+				}
+				if fromHelper(v, 0) {
+					okRet = true
 				}
 				r.Check(okRet, name+" / returned write index", c.P.Pos(ret.Pos()), "the growth helper must return the length the buffer had on entry (the place where the caller writes): "+v.String())
 			}
